@@ -207,6 +207,8 @@ SCEN = {
         'rA': [{'do': R, 'after': _after('disc_new', g=1)}, {'do': SH, 'after': _after('disc_new', g=2)}]}},
     'retry': {'ifaces': ['tcp', 'tcp'], 'kinds': [['inuse3', 'ok'], ['inuse5', 'inuse1']], 'threads': {
         'rA': [{'do': R, 'after': _after('disc_new', g=1)}, {'do': SH, 'after': _after('disc_new', g=2)}]}},
+    'retry_exhausted': {'ifaces': ['tcp', 'tcp'], 'kinds': [['inuse9', 'ok']], 'threads': {
+        'rA': [{'do': SH, 'vt': 20}]}},
     'late': {'ifaces': ['tcp', 'fake'], 'kinds': [['ok', 'late']], 'threads': {'rA': [{'do': SH, 'vt': 20}]}},
     'late_shutdown': {'ifaces': ['tcp', 'fake'], 'kinds': [['ok', 'late']], 'threads': {'rA': [{'do': SH, 'vt': 13}]}},
     'slow': {'ifaces': ['fake', 'tcp'], 'kinds': [['slow', 'ok']], 'threads': {
@@ -289,10 +291,16 @@ def _corpus(item):
 ALLOWED_THREAD_EXC = {'KeyError'}      # an interface thread dies on an unknown scheme (Server.INTERFACES[scheme])
 
 
+DEV_NAMES = ['Dev_ModulesLeftRunning', 'Dev_ServesAfterStop', 'Dev_StaleAnnounce', 'Dev_ShutdownLost', 'Dev_RestartLost',
+             'Dev_RequestRaises_AttributeError', 'Dev_RequestRaises_RuntimeError', 'Dev_Revived', 'Dev_ResponderLeak',
+             'Dev_NoHook', 'Dev_InterruptedStartup', 'Dev_RequestRaises_other']       # = DevNames of Trace_ServerRun.tla
+
+
 def _devs(extra):
+    """per trace the smallest set of deviations with which TLC could accept it (bit mask over DEV_NAMES)"""
     devs = {}
-    for i, js in extra['DEVS']:
-        d = set(json.loads(js))
+    for i, mask in extra['DEVS']:
+        d = {n for k, n in enumerate(DEV_NAMES) if mask >> k & 1}
         devs[i] = d if i not in devs else min(devs[i], d, key=lambda x: (len(x), sorted(x)))
     return devs
 
@@ -316,7 +324,10 @@ def _selftest_traces():
     bad = []
     for m in muts:
         t = json.loads(json.dumps(clean))
-        m(t)
+        try:
+            m(t)
+        except StopIteration:       # (the event to corrupt is not there: the code under test is broken anyway)
+            continue
         bad.append(t)
     return [clean] + bad
 
